@@ -11,3 +11,5 @@ for p in "$@"; do
   echo "exit=$?"
 done
 git -C /repo checkout -- . && git -C /repo clean -fdq
+# the runs above rewrote generated files and evidence from the patched tree: restore the committed ones
+git -C /verif checkout -- coq/theories/Facts.v coq/theories/SrcConsts.v evidence 2>/dev/null
